@@ -100,9 +100,26 @@ def lambdify_at_constants(py, exprs, symbols):
     return sp.lambdify(list(symbols), exprs, modules="mpmath")
 
 
+def guarded_claim(fn):
+    """An engine failure inside one claim is recorded under the claim's name (CHECKER-ERROR) and the check goes on with
+    its other claims; it is never turned into a verdict."""
+    import functools
+    import traceback
+
+    @functools.wraps(fn)
+    def wrapper(ctx, name, *a, **k):
+        try:
+            return fn(ctx, name, *a, **k)
+        except Exception:
+            ctx.add(Ob(name + ".engine", "guard", "error", "python", 0.0, traceback.format_exc()[-1500:]))
+            return None
+    return wrapper
+
+
 # ---------------------------------------------------------------------------
 # equality with a spec function
 # ---------------------------------------------------------------------------
+@guarded_claim
 def eq_spec(ctx, name, symbols, code, spec, domain=None, kind="a", cos_nonneg=(),
             cell_names=None, crosscheck=True, tol=1e-9, py=None, extra_relations=(),
             rdomain_kw=None, derived=None, const_box=None):
@@ -216,6 +233,7 @@ def taylor_coeffs(exprs, eps, order):
     return out
 
 
+@guarded_claim
 def taylor_spec(ctx, name, symbols, eps, code, spec_coeffs, order, domain=None, kind="b",
                 cos_nonneg=(), cell_names=None, py=None, fd_step=1e-4, tol=2e-5, crosscheck=True,
                 orders=None, rdomain_kw=None, extra_relations=(), post=None, derived=None, const_box=None,
